@@ -282,8 +282,8 @@ func (t *MessageContainer) MarshalTL(e *tl.Encoder) error {
 	for _, msg := range *t {
 		e.PutLong(msg.MsgID)
 		e.PutInt(msg.SeqNo)
-		//       msgID        seqNo        len                object
-		e.PutInt(tl.LongLen + tl.WordLen + tl.WordLen + int32(len(msg.Msg)))
+		// bytes field of message is a length of its body only (UnmarshalTL reads it so, and server too)
+		e.PutInt(int32(len(msg.Msg)))
 		e.PutRawBytes(msg.Msg)
 	}
 	return e.CheckErr()
